@@ -225,6 +225,22 @@ Theorem C03_example_repeated_keys :
 Proof. exact example_repeated_keys. Qed.
 Print Assumptions C03_example_repeated_keys.
 
+(* ---- wave 3: the directory may already hold other files of any content (zero bytes, a lone newline, blanks, another
+   yanny file, garbage ...); the invariant never looks at them, and write() refuses every existing name whatever it holds
+   (C03_write_to_existing_refused has no premise on the content) ---- *)
+Theorem C03_other_files_do_not_matter : forall fs o d extra, SInv fs o d -> SInv (fs ++ extra) o d.
+Proof. exact SInv_extra. Qed.
+Print Assumptions C03_other_files_do_not_matter.
+
+Theorem C03_in_domain_history_with_other_files : forall d0 p0 raw extra steps,
+  in_domain (CHistX d0 p0 raw extra steps) = true ->
+  exists fs o, init_state d0 p0 raw = Some (fs, o) /\
+  let '(fs', o') := run (fs ++ extra, o) (map fst steps) in
+  fs_get fs' (o_file o') = Some (o_contents o') /\ parse (o_contents o') = Some (o_state o') /\
+  sem (spec_doc d0 (map fst steps)) = Some (o_state o').
+Proof. exact in_domain_historyX. Qed.
+Print Assumptions C03_in_domain_history_with_other_files.
+
 (* ---- tie of the hand-written scanners to the literals of the CURRENT source (Generated/YannyLits.v is regenerated
    from yanny.py on every run by translate/c01.py; the scanners and their attribution: C01/Lits.v) ---- *)
 From PV Require Import Generated.YannyLits C01.Lits.
